@@ -464,7 +464,16 @@ impl Actor {
 
 pub fn run(config: Config, receiver: Receiver<ActorMessage>) {
     #[cfg(mainline_verif)]
-    crate::verif::seed_actor_thread();
+    {
+        crate::verif::seed_actor_thread();
+        // In lockstep mode the first loop iteration must see the `Check` message that
+        // `Dht::new` sends right after spawning this thread, whatever the thread timing.
+        if crate::verif::lockstep_bind_pending() {
+            while receiver.is_empty() {
+                std::thread::yield_now();
+            }
+        }
+    }
 
     match Actor::new(config) {
         Ok(mut actor) => {
